@@ -856,7 +856,7 @@ pub fn cases_dbf(tier: &str, rng: &mut Rng, stats: &mut Stats, out: &mut Out) {
         let id = out.oracle_only_id();
         out.verdict(&id, &format!("scenario pairs-adaptors {}", n), oracle_pairs_adaptors(n));
     }
-    for (a, b) in [("parcels", "parcels.v2"), ("a.b.c", "a.b"), ("roads", "roads_2024.final"), ("x", "x.shp")] {
+    for (a, b) in [("Survey", "survey"), ("parcels", "parcels.v2"), ("a.b.c", "a.b"), ("roads", "roads_2024.final"), ("x", "x.shp")] {
         let id = out.oracle_only_id();
         out.verdict(&id, &format!("scenario path-names {} {}", a, b), oracle_c08_path_names(a, b));
     }
